@@ -127,7 +127,7 @@ func c02TreeGen(tier Tier) TreeGen {
 		Kinds:     []string{"AND", "OR", "NOT", "LIST", "AND", "OR", "NOT", "LIST", "BASIC"},
 		RootKinds: []string{"AND", "OR", "NOT", "LIST"},
 		Leaf:      func(t *rapid.T) Val { return genPrimVal(t, true, true) },
-		Conds:     true, CondExprStack: true, InvalidConds: true,
+		Conds:     true, CondExprStack: true, CondExprCond: true, InvalidConds: true,
 		Options: true, EmptyStacks: true,
 	}
 	if tier.Thorough {
